@@ -378,7 +378,9 @@ class Term:
             elif t.is_abs():
                 return TFun(t.var_T, rec(t.body, [t.var_T] + bd_vars))
             elif t.is_bound():
-                if t.n >= len(bd_vars):
+                # A negative number is not a de Bruijn index (and would
+                # count the binders from the outside).
+                if t.n < 0 or t.n >= len(bd_vars):
                     raise TypeCheckException("open term")
                 else:
                     return bd_vars[t.n]
@@ -397,7 +399,7 @@ class Term:
             elif t.is_abs():
                 return rec(t.body, n+1)
             elif t.is_bound():
-                return t.n >= n
+                return t.n >= n or t.n < 0
             else:
                 raise TypeError
         return rec(self, 0)
@@ -885,7 +887,9 @@ class Term:
                 bodyT = rec(t.body, [t.var_T] + bd_vars)
                 return TFun(t.var_T, bodyT)
             elif t.is_bound():
-                if t.n >= len(bd_vars):
+                # A negative number is not a de Bruijn index (and would
+                # count the binders from the outside).
+                if t.n < 0 or t.n >= len(bd_vars):
                     raise TypeCheckException("open term")
                 else:
                     return bd_vars[t.n]
